@@ -172,7 +172,6 @@ def block (res : String) (s : State) (binds closes : List (Nat × String)) : Str
     for parsed scenarios; printed as `model-stuck`) ; the Bool says "stop here" (stale) -/
 def loadBlock (s : State) (k : Nat) (c : CfgSpec) : Option (State × String × Bool) :=
   if c.same then some (s, block "same" s [] [], false) else
-  if c.addrs.any (fun a => a.unix && (s.socks a).stale) then some (s, "stale::::", true) else
   match step? s (.begin ⟨k, c.addrs⟩) with
   | none => none
   | some s1 =>
@@ -256,7 +255,9 @@ def answerOk (s : State) (a : Addr) (ch : Char) : Bool :=
   else if gs.isEmpty then closedOk
   else if gs.any (fun g => genCh g == ch) then true
   else if !a.unix && ch == 's' && gs.any (fun g => retiringGen s == some g) then true
-  else if gs.all (fun g => retiringGen s == some g) then closedOk
+  else if gs.all (fun g => retiringGen s == some g) then
+    -- every listener may be closed (and a unix socket's file removed) before the connect
+    closedOk || (a.unix && ch == 'n')
   else false
 
 def answersOk (s : State) (ans : String) : Bool :=
@@ -265,10 +266,6 @@ def answersOk (s : State) (ans : String) : Bool :=
 
 def tokId (s : String) : Option Nat :=
   if s.startsWith "k" then (s.drop 1).toString.toNat? else none
-
-/-- the stale unix address the failing `Listen` hit -/
-def staleAddr (s : State) : Option Addr :=
-  addrUniverse.find? (fun a => enabled s (.bindStale a))
 
 structure VState where
   s : State
@@ -324,10 +321,7 @@ def validateEvent (sc : Scenario) (s : State) (ev : String) : Verdict :=
       | some w => .bad w
     | ["W", _], [] => stepV s .swap "swap"
     | ["J", _], [] => stepV s .reject "reject"
-    | ["Z", _], [] =>
-      match staleAddr s with
-      | some a => stepV s (.bindStale a) "bindStale"
-      | none => .bad "no-stale-address"
+    | ["Z", _], [] => .bad "http-app-start-failed"   -- a config that should have been accepted was rejected
     | ["B", gs, an], [snap] =>
       match gs.toNat?, addrOfName an with
       | some g, some a =>
@@ -379,9 +373,6 @@ def handle : List String → String
   | _ => "bad-op"
 
 /-- counter-example lines replayed on the implementation on every run (see Witness.lean) -/
-def witnessLines : List String := [
-  "C02 seq 0 0 u0;- - -",
-  "C02 seq 0 0 u0;!u0;u0 - -"
-]
+def witnessLines : List String := []
 
 end CaddyModel.C02
